@@ -118,4 +118,13 @@ def run(ctx):
                      'and the residual bound is widened by the conditioning allowance of the documented double-precision formula (DESIGN 9)'])
     if not ctx.replay:
         res = integrator_common.add_driver_traces(ctx, res, rng, dims=(1, 2, 3, 4, 5), prop='C02')
+    if not ctx.replay and not getattr(ctx, 'no_mc', False):
+        # unbounded companion of IntegratorMC: the inductive invariant of the driver state machine (integer ticks), by Apalache
+        ap = common.apalache_inductive('IntegratorInt')
+        res['coverage'].setdefault('model_checking_runs', []).append(ap)
+        if ap.get('steps') and not ap['ok']:
+            for st in ap['steps']:
+                if not st['holds']:
+                    res['violations'].append({'key': 'spec/IntegratorInt/' + st['obligation'], 'what': 'Apalache refutes the proof obligation %s of the driver state machine' % st['obligation'],
+                                              'payload': {'spec': 'IntegratorInt', 'obligation': st['obligation']}})
     return res
